@@ -117,6 +117,7 @@ func init() {
 }
 
 func runC41(c *Ctx) {
+	c41SequenceNumberOwner(c)
 	c41Encoder(c)
 	c41Receiver(c)
 	lT := "(*gateway/dataplane.reassemblyList)"
